@@ -178,8 +178,19 @@ pub fn run(ctx: &Ctx, rep: &mut Report) {
         }
         rep.evaluations += 1;
         let s1 = gen_name(&mut rng);
-        let s2 = match rng.usize(4) {
+        let s2 = match rng.usize(5) {
             0 | 1 => s1.clone(),
+            4 => {
+                // a different name whose text is the stored (escaped) spelling of the first name: the intern
+                // table must not confuse a name with a spelling
+                match natural(&s1).or_else(|| spelling(&mut vm, &s1)) {
+                    Some(sp) if sp != s1 => {
+                        rep.count("second_name_is_the_spelling_of_the_first", 1);
+                        sp
+                    }
+                    _ => gen_name(&mut rng),
+                }
+            }
             2 => {
                 // a near miss
                 let mut c: Vec<char> = s1.chars().collect();
